@@ -75,31 +75,25 @@ theorem advertised_frame_size_enforced (b : Bytes) (h9 : 9 ≤ b.length) (hl : b
     readFrame Gen.c_defaultDataFrameSize b = .err .tooLarge 9 :=
   (C16.too_large_rejected Gen.c_defaultDataFrameSize b (by decide) h9 hl).1
 
-/-! ### what is not proved (known findings, see KNOWN_FINDINGS.txt)
-* F33 — a response header block always goes out as one HEADERS frame, whatever its size: the full model's
-  `responseHeaders` emits a single `.headers` output whose length is the block length.
-* F52 — `handleSettings` applies `st.tableSize`, which is the *default* 4096 when the frame does not carry
-  SETTINGS_HEADER_TABLE_SIZE: a later SETTINGS frame without it resets a smaller limit the peer had set.
-The full statement of the encoder clause is kept here: -/
-def C18_encoder_full : Prop :=
-  ∀ (r : R) (st : SettingsVal),
-    (handleSettings r st).s.enc.maxSize ≤
+/-- **The peer's SETTINGS_HEADER_TABLE_SIZE persists and bounds the encoder**: after handling a SETTINGS
+frame the encoder's table limit is the value the frame announces (the last one, if several) or, when the
+frame does not mention it, the value the peer had announced before — never a default brought back by an
+unrelated SETTINGS frame (finding F52, repaired). -/
+theorem encoder_limit_is_peers (r : R) (st : SettingsVal) :
+    (handleSettings r st).s.enc.maxSize = (handleSettings r st).s.peerTableSize ∧
+    (handleSettings r st).s.peerTableSize =
       (match (st.pairs.filter fun p => p.1 == Gen.c_HeaderTableSize).getLast? with
         | some (_, v) => v
-        | none => r.s.enc.maxSize)
+        | none => r.s.peerTableSize) := by
+  have hset : ∀ (e : Hpack.EncState) (n : Nat), (e.setMax n).maxSize = n := by
+    intro e n; simp only [Hpack.EncState.setMax]; split <;> simp_all
+  simp only [handleSettings, R.emit]
+  exact ⟨hset _ _, rfl⟩
 
-/-- F52 witness: a SETTINGS frame that says nothing about the table size raises the encoder's limit from
-0 back to 4096 -/
-theorem C18_encoder_witness : ¬ C18_encoder_full := by
-  intro h
-  have := h { s := { enc := { maxSize := 0 } } } {}
-  simp [handleSettings, Hpack.EncState.setMax, Gen.c_defaultHeaderTableSize, Gen.c_HeaderTableSize, R.emit] at this
-
-/-- partial: when the frame does carry SETTINGS_HEADER_TABLE_SIZE (once), the encoder's limit is that value -/
-theorem encoder_limit_applied_partial (r : R) (st : SettingsVal) :
-    (handleSettings r st).s.enc.maxSize = st.tableSize := by
-  simp only [handleSettings, R.emit, Hpack.EncState.setMax]
-  split <;> simp_all
+/-! ### what is not proved (known finding, see KNOWN_FINDINGS.txt)
+* F33 — a response header block always goes out as one HEADERS frame, whatever its size: the full model's
+  `responseHeaders` emits a single `.headers` output whose length is the block length, so a HEADERS frame can
+  exceed the peer's SETTINGS_MAX_FRAME_SIZE. -/
 
 /-! non-vacuity -/
 example : acksOwed { s := {} } ⟨4, 0, 0, 0, .settings {}⟩ = 1 := by decide
